@@ -57,6 +57,8 @@ fn map_extend<K: std::cmp::Eq + std::hash::Hash, V>(m: &mut HashMap<K, V>, other
             r is Ok ==> r->Ok_0@.dom() == chain_link_dict@.dom(),
 //@end
 //@extract src/verifylib.rs fn:verify_all_steps_command_alignment stub
+//@contract ret=r
+//@include contracts/command_alignment.rs
 //@end
 //@extract src/verifylib.rs fn:verify_threshold_constraints stub
 //@contract ret=r
